@@ -129,6 +129,7 @@ class Field:
     optional: Optional[str] = None  # None | "opt" | "nullable"
     default: bool = False
     as_: Optional[str] = None
+    as_ty: Optional["Ty"] = None    # `as` another type of the corpus (ts-only corpora): what the binding is made from
     type_: Optional[str] = None
     docs: List[str] = dfield(default_factory=list)
     extra_attrs: List[str] = dfield(default_factory=list)
@@ -153,7 +154,9 @@ class Field:
             out.append('#[serde(skip_serializing_if = "Option::is_none")]')
         elif self.optional == "nullable":
             out.append('#[ts(optional = nullable)]')
-        if self.as_ is not None:
+        if self.as_ty is not None:
+            out.append(f'#[ts(as = {rs_str(self.as_ty.rs())})]')
+        elif self.as_ is not None:
             out.append(f'#[ts(as = {rs_str(self.as_)})]')
         if self.type_ is not None:
             out.append(f'#[ts(type = {rs_str(self.type_)})]')
@@ -242,6 +245,8 @@ class Item:
         out = []
         for f in self.all_fields():
             out.extend(f.ty.users())
+            if f.as_ty is not None:
+                out.extend(f.as_ty.users())
         for t in self.param_default_tys.values():
             out.extend(t.users())
         return out
@@ -344,8 +349,8 @@ def field_tags(f: Field):
         t.append("f:rename")
     if f.default:
         t.append("f:default")
-    if f.as_ is not None:
-        t.append("f:as")
+    if f.as_ is not None or f.as_ty is not None:
+        t.append("f:as" + (">user" if f.as_ty is not None else ""))
     if f.type_ is not None:
         t.append("f:type")
     t.append("t:" + base)
@@ -728,7 +733,8 @@ class Gen:
             f.default = False  # serde(default) needs Default for the field type; only for options
             if f.ty.kind == "opt":
                 f.default = True
-        if self.p.overrides and not f.inline and not f.optional and self.r.random() < pa * 0.15:
+        self.maybe_as_other(f)
+        if f.as_ty is None and self.p.overrides and not f.inline and not f.optional and self.r.random() < pa * 0.15:
             if f.ty.kind == "prim" and f.ty.name in INT_PRIMS:
                 if self.r.random() < 0.5:
                     f.type_ = "number" if f.ty.name not in ("u64", "i64") else "bigint"
@@ -740,7 +746,21 @@ class Gen:
         f = Field(None, self.ty(depth, params))
         if self.p.inline and self.inlineable(f.ty) and f.ty.has("user") and self.r.random() < 0.25:
             f.inline = True
+        self.maybe_as_other(f)
         return f
+
+    def maybe_as_other(self, f):
+        """ts-only corpora: the field is bound `as` another type of the corpus (by name or inlined)"""
+        if not (self.p.ts_only and self.p.placements) or f.flatten or f.skip or f.optional or self.r.random() >= 0.08:
+            return
+        cands = [i for i in self.items if not i.params and not i.recursive]
+        if not cands:
+            return
+        other = Ty("user", item=self.r.choice(cands))
+        f.as_ty = self.r.choice([other, other, Ty("vec", args=[other]), Ty("opt", args=[other])])
+        f.as_ = None
+        f.type_ = None
+        f.inline = self.p.inline and self.r.random() < 0.5
 
     def skip_tuple_fields(self, fields, tags):
         """now and then some, or all, fields of a tuple are skipped (serde then emits a shorter sequence, `[]` for none left)"""
@@ -961,7 +981,7 @@ class Gen:
         else:
             # files shared by several types (same stem in different directories too)
             it.export_to = self.r.choice([f"{px}{s}" if not s.startswith("../") else f"../{px}{s[3:]}" for s in self.SHARED]
-                                         + [f"{px}s1/same.ts", f"{px}s2/same.ts"])
+                                         + [f"{px}s1/same.ts", f"{px}s2/same.ts", f"{px}s1/nested/same.ts", f"{px}s1/nested/deeper/same.ts"])
             # the same file may be spelled differently by different types
             if self.r.random() < 0.3 and "/" in it.export_to:
                 d, f = it.export_to.rsplit("/", 1)
